@@ -44,3 +44,31 @@ Definition child_ok (v : value) : bool := is_normal v && negb (is_doc v).
 (* value updates that keep a node in its class *)
 Definition same_class (v w : value) : Prop :=
   vrank v = vrank w /\ is_doc v = is_doc w /\ is_elem v = is_elem w.
+
+(* ---------- attribute names and declared prefixes are unique per element ---------- *)
+
+(* = Manip.key_of: the name of an attribute node, the prefix of a namespace node *)
+Definition key_of_node (v : value) : N := match v with VAttribute n _ => n | VNamespace p _ => p | _ => 0 end.
+
+(* the keys of the nodes of category [c] in one sibling list *)
+Fixpoint level_keys (c : vcat) (f : forest) : list N :=
+  match f with
+  | FNil => []
+  | FCons _ v _ r => if vcat_eqb (value_category v) c then key_of_node v :: level_keys c r else level_keys c r
+  end.
+
+Fixpoint nodupb (l : list N) : bool :=
+  match l with [] => true | x :: l' => negb (existsb (N.eqb x) l') && nodupb l' end.
+
+(* the child list [k] of one node has no attribute name twice and no prefix twice *)
+Definition level_ok (k : forest) : bool := nodupb (level_keys CAttribute k) && nodupb (level_keys CNamespace k).
+
+Fixpoint keys (f : forest) : bool :=
+  match f with
+  | FNil => true
+  | FCons _ _ k r => level_ok k && keys k && keys r
+  end.
+
+(* updates that leave a node's category alone and, for an attribute or namespace node, its key *)
+Definition same_key (v w : value) : Prop :=
+  value_category v = value_category w /\ (value_category v <> CNormal -> key_of_node v = key_of_node w).
